@@ -31,7 +31,7 @@ def dedup {α : Type} [BEq α] : List α → List α
 
 def nonNull (vs : List Val) : List Val := vs.filter (· != .null)
 def nums (vs : List Val) : List Rat := vs.filterMap fun v => match v with | .num q => some q | _ => none
-def rsum (l : List Rat) : Rat := l.foldl (· + ·) 0
+def rsum (l : List Rat) : Rat := l.foldr (· + ·) 0
 
 def pickBy (better : Ordering) (vs : List Val) : Val :=
   match vs with
@@ -83,7 +83,34 @@ inductive AExpr where
   | case (c a b : AExpr)
   | paren (a : AExpr)
   | outRef (alias : String)        -- HAVING / outer reference to an output column by alias
+  | symSum (pk v : Expr)           -- SUM(DISTINCT HASH(pk)*2^40 + v) - SUM(DISTINCT HASH(pk)*2^40)
   deriving Repr, Inhabited, DecidableEq
+
+/-- stand-in for the engine's HASH: an injective encoding of key values into the integers
+(collisions of the real 64-bit hash are outside the model, DESIGN §2.7) -/
+def encodeKey : Val → Int
+  | .null => 0
+  | .num q => 4 * q.num * (q.den : Int) + 1
+  | .str s => 4 * (s.toList.foldl (fun acc c => acc * 1114112 + (c.toNat : Int) + 1) 0) + 2
+  | .bool b => if b then 7 else 3
+  | .ts t => 4 * t
+
+/-- the symmetric-aggregate multiplier of the DuckDB dialect: `1::HUGEINT << 40` -/
+def symMultiplier : Int := 1099511627776
+
+def hashTerm (pk : Expr) (r : Row) : Rat := ((encodeKey (pk.eval r) * symMultiplier : Int) : Rat)
+
+def symTerm (pk v : Expr) (r : Row) : Val :=
+  match v.eval r with
+  | .num x => .num (hashTerm pk r + x)
+  | _ => .null
+
+def symSumEval (pk v : Expr) (g : List Row) : Val :=
+  let keyed := g.filter fun r => pk.eval r != .null
+  let a := nums (keyed.map (symTerm pk v))
+  let b := keyed.map (hashTerm pk)
+  if a.isEmpty then .null
+  else .num (rsum (dedup a) - rsum (dedup b))
 
 def AExpr.eval (out : Row) (g : List Row) : AExpr → Val
   | .agg f e => f.apply (g.map e.eval)
@@ -94,6 +121,7 @@ def AExpr.eval (out : Row) (g : List Row) : AExpr → Val
   | .case c a b => if (c.eval out g).isTrue then a.eval out g else b.eval out g
   | .paren a => a.eval out g
   | .outRef n => out.get n
+  | .symSum pk v => symSumEval pk v g
 
 structure Item where
   e : Expr
@@ -164,16 +192,16 @@ def nullRow (c : Cte) : Row := c.items.map fun it => (c.qual it.alias, Val.null)
 def joinMatch (on : List (String × String)) (l r : Row) : Bool :=
   on.all fun (a, b) => evalBin .eq (l.get a) (r.get b) == .bool true
 
+/-- output rows for one left row given its matching right rows -/
+def joinRow (kind : JoinKind) (c : Cte) (ms : List Row) (l : Row) : List Row :=
+  match kind, ms with
+  | .left, [] => [l ++ nullRow c]
+  | _, ms => ms.map fun r => l ++ r
+
 def applyJoin (db : DB) (ctes : List Cte) (acc : List Row) (j : Join) : List Row :=
   match ctes.find? (·.name == j.cte) with
   | none => acc
-  | some c =>
-    let right := c.eval db
-    acc.flatMap fun l =>
-      let ms := right.filter (joinMatch j.on l)
-      match j.kind, ms with
-      | .left, [] => [l ++ nullRow c]
-      | _, ms => ms.map fun r => l ++ r
+  | some c => acc.flatMap fun l => joinRow j.kind c ((c.eval db).filter (joinMatch j.on l)) l
 
 def Plan.joined (p : Plan) (db : DB) : List Row :=
   match p.ctes.find? (·.name == p.base) with
@@ -245,6 +273,9 @@ def AExpr.toSql : AExpr → String
   | .case c a b => "CASE WHEN " ++ c.toSql ++ " THEN " ++ a.toSql ++ " ELSE " ++ b.toSql ++ " END"
   | .paren a => "(" ++ a.toSql ++ ")"
   | .outRef n => n
+  | .symSum pk v =>
+    let h := "(HASH(" ++ pk.toSql ++ ")::HUGEINT * (1::HUGEINT << 40))"
+    "(SUM(DISTINCT " ++ h ++ " + " ++ v.toSql ++ ") - SUM(DISTINCT " ++ h ++ "))"
 
 def Item.toSql (it : Item) : String := it.e.toSql ++ " AS " ++ quoteIdent it.alias
 
